@@ -15,6 +15,7 @@
   history length.
 -/
 import Gedcom.Lemmas.CacheMono
+import Gedcom.Lemmas.CacheEff
 import Gedcom.Props.C01
 namespace Gedcom.C13
 open Gedcom Gedcom.Cache
@@ -203,6 +204,78 @@ theorem string_is_encode (s : St) :
 theorem reads_keep_text (s : St) (op : Op) (h : Inv s) (hr : op.isRead = true) :
     (step Cache.flags (step Cache.flags s op).1 .string).2 = (step Cache.flags s .string).2 := by
   rw [string_is_encode, string_is_encode, reads_keep_document s op h hr]
+
+/-! ## the model's step is the source's statement list
+
+  `Generated/CacheEffects.lean` holds, for SimpleNode / FamilyNode / IndividualNode `.AddNode`,
+  `.DeleteNode`, `.SetNodes` and for `Document.DeleteNode`, `.SetNodes`, the statements of the Go method
+  body in source order (go/ast; `if didDelete`, `if node.document != nil` as guards; private helpers
+  inlined; anything unrecognised is `.bad`), and the version protocol of `IndividualNode.Families()` /
+  `Spouses()`.  `CacheEff.runBody` interprets a list on the model's state. -/
+
+open Gedcom.CacheEff in
+/-- **Obligation**: every statement of the eleven bodies is inside the fragment (nothing was
+    skipped or guessed). -/
+theorem mutators_translated :
+    (inFragment Generated.simpleAddNode && inFragment Generated.simpleDeleteNode &&
+     inFragment Generated.simpleSetNodes && inFragment Generated.familyAddNode &&
+     inFragment Generated.familyDeleteNode && inFragment Generated.familySetNodes &&
+     inFragment Generated.individualAddNode && inFragment Generated.individualDeleteNode &&
+     inFragment Generated.individualSetNodes && inFragment Generated.documentDeleteNode &&
+     inFragment Generated.documentSetNodes) = true := by decide
+
+/-- **Obligation**: only SimpleNode, FamilyNode and IndividualNode (and Document, for its root list)
+    define the three methods — the dispatch by tag in `addNodeSrc` … is complete. -/
+theorem overriders_as_modelled :
+    Generated.overriders =
+      [("AddNode", ["Document", "FamilyNode", "IndividualNode", "SimpleNode"]),
+       ("DeleteNode", ["Document", "FamilyNode", "IndividualNode", "SimpleNode"]),
+       ("SetNodes", ["Document", "FamilyNode", "IndividualNode", "SimpleNode"])] := by decide
+
+open Gedcom.CacheEff in
+/-- **Obligation**: both cached getters follow the version protocol — read (cached, stamp, value),
+    trust it iff `cached && stamp == familyLinksVersion`, store (value, true, current version) — each
+    with its *own* three fields. -/
+theorem getters_translated :
+    Generated.getterFamilies =
+      ⟨["cachedFamilies", "familiesVersion", "families"], .cachedAndVersionCurrent,
+       [("families", .result), ("cachedFamilies", .yes), ("familiesVersion", .docVersion)]⟩ ∧
+    Generated.getterSpouses =
+      ⟨["cachedSpouses", "spousesVersion", "spouses"], .cachedAndVersionCurrent,
+       [("spouses", .result), ("cachedSpouses", .yes), ("spousesVersion", .docVersion)]⟩ := by decide
+
+/-- … so a stamp written by one getter can never validate what the other remembered. -/
+theorem getter_stamps_separate :
+    (Generated.getterFamilies.snapshot.all fun f => !Generated.getterSpouses.snapshot.contains f) = true ∧
+    (Generated.getterFamilies.stores.all fun f => !Generated.getterSpouses.snapshot.contains f.1) = true ∧
+    (Generated.getterSpouses.stores.all fun f => !Generated.getterFamilies.snapshot.contains f.1) = true := by
+  decide
+
+/-- The protocol in the small: what was stored under the current version is trusted; after
+    `familyLinksVersion++` nothing stored before is — the model's `bumpFamilyLinks` (drop every
+    entry) is exactly that. -/
+theorem version_protocol {α : Type} (V : Nat) (v : α) (c : CacheEff.Cell α) (h : c.version ≤ V) :
+    (CacheEff.Cell.store V v).get V = some v ∧ c.get (V + 1) = none ∧ (CacheEff.Cell.store V v).version ≤ V :=
+  ⟨CacheEff.cell_store_get V v, CacheEff.cell_bump_miss c V h, CacheEff.cell_store_le V v⟩
+
+open Gedcom.CacheEff in
+/-- **`n.DeleteNode(c)`, `n.SetNodes(ks)`, `n.AddNode(x)`, `doc.DeleteNode(r)`, `doc.SetNodes(ks)` of the
+    model are the translated bodies, run in source order** (dispatched on the Go type of the receiver,
+    which the tag decides; `AddNode` after the new node was allocated).  The model's step for these
+    operations is therefore *derived from* the source's statement list: a statement added, removed,
+    reordered or put under another condition in the Go method changes the right-hand side. -/
+theorem step_is_source (s : St) :
+    (∀ n c, (exec Cache.flags s (.deleteNode n c)).1 = runBody sup ⟨n, c, []⟩ (deleteNodeSrc ((abs s).tag n)) s) ∧
+    (∀ n ks, (exec Cache.flags s (.setNodes n ks)).1 = runBody sup ⟨n, 0, ks⟩ (setNodesSrc ((abs s).tag n)) s) ∧
+    (∀ n t v p, (exec Cache.flags s (.addNode n t v p)).1 =
+      runBody sup ⟨n, s.heap.length, []⟩ (addNodeSrc ((abs (alloc ⟨t, v, p, [], 0⟩ s)).tag n))
+        (alloc ⟨t, v, p, [], 0⟩ s)) ∧
+    (∀ r, (exec Cache.flags s (.docDelete r)).1 = runBody sup ⟨0, r, []⟩ Generated.documentDeleteNode s) ∧
+    (∀ ks, (exec Cache.flags s (.docSetNodes ks)).1 = runBody sup ⟨0, 0, ks⟩ Generated.documentSetNodes s) := by
+  rw [flags_eq]
+  exact ⟨fun n c => deleteKid_is_source n c s, fun n ks => setKidsOp_is_source n ks s,
+    fun n t v p => addKid_is_source n s.heap.length (alloc ⟨t, v, p, [], 0⟩ s),
+    fun r => docDelete_is_source r s, fun ks => docSetNodes_is_source ks s⟩
 
 /-! ## the statement fails without the invalidations: concrete histories (replayed on the code) -/
 
